@@ -589,6 +589,16 @@ class StubsStringGenerator:
                             default_value = "[]"
                         elif assigned_by == ParameterAssignment.NAMED_VARARG and param_default_value == "{}":
                             default_value = "{}"
+                        elif param_default_value in {"None", "True", "False"}:
+                            # Default values which are taken from a docstring are Python source code
+                            default_value = {"None": "null", "True": "true", "False": "false"}[param_default_value]
+                        elif (
+                            len(param_default_value) >= 2
+                            and param_default_value[0] == param_default_value[-1] == "'"
+                            and not any(char in param_default_value[1:-1] for char in ("'", '"', "\\"))
+                        ):
+                            # String literals have to be written with double quotes
+                            default_value = f'"{param_default_value[1:-1]}"'
                         else:
                             default_value = param_default_value
                     elif isinstance(param_default_value, bool):
